@@ -60,7 +60,8 @@ class Built:
         def probe(*a, **kw):
             if a and getattr(a[0], '_gen_node', False) is True:
                 a = a[1:]
-            journal.append((pid, [x if isinstance(x, str) else repr(x) for x in a], sorted(kw)))
+            journal.append((pid, [x if isinstance(x, str) else repr(x) for x in a],
+                            {k: (v if isinstance(v, str) else repr(v)) for k, v in kw.items()}))
             return 'ran ' + pid
         probe._pid = pid
         probe.__name__ = 'probe_' + ''.join(c if c.isalnum() else '_' for c in pid)
@@ -164,27 +165,27 @@ class Built:
         if t == 'popargs_cls':
             cherrypy.popargs(*names)(cls)
             f = cls.__dict__['_cp_dispatch']
-            self.disp[id(f)] = {'kind': 'popargs', 'n': len(names), 'h': None}
+            self.disp[id(f)] = {'kind': 'popargs', 'names': names, 'h': None}
             self.keep.append(f)
         elif t == 'popargs_attr':
             h = d.get('h')
             if h is None:
                 f = cherrypy.popargs(*names)
-                desc = {'kind': 'popargs', 'n': len(names), 'h': None}
+                desc = {'kind': 'popargs', 'names': names, 'h': None}
             elif h[0] == 'obj':
                 # a handler object that is not callable is returned as it is
                 f = cherrypy.popargs(*names, handler=self.objs[h[1]])
                 # popargs decides by hasattr(handler, '__call__')
                 if hasattr(self.objs[h[1]], '__call__'):
                     raise common.HarnessError('popargs handler object must not be callable in a spec')
-                desc = {'kind': 'popargs', 'n': len(names), 'h': ['t', self.objs[h[1]]]}
+                desc = {'kind': 'popargs', 'names': names, 'h': ['obj', self.objs[h[1]]]}
             else:
                 target = self._target(h[1])
 
                 def handler_fn(**parms):
                     return target
                 f = cherrypy.popargs(*names, handler=handler_fn)
-                desc = {'kind': 'popargs', 'n': len(names), 'h': ['t', target]}
+                desc = {'kind': 'popargs', 'names': names, 'h': ['call', target]}
             cls._cp_dispatch = f
             self.disp[id(f)] = desc
             self.keep.append(f)
@@ -363,8 +364,8 @@ class View:
             # `decorated(cls_or_self=None, vpath=None)`: an unbound call simply has self = None
             selfo = o.__self__ if bound else None
             h = desc['h']
-            hs = '-' if h is None else 'H' + self._opt(h[1], d)
-            return 'A:%d:%s:%s' % (desc['n'], hs, self._opt(selfo, d))
+            hs = '-' if h is None else ('H' if h[0] == 'obj' else 'C') + self._opt(h[1], d)
+            return 'A:%s:%s:%s' % ('+'.join(enc_text(n) for n in desc['names']) or '-', hs, self._opt(selfo, d))
         if not bound:
             return 'R'     # `_cp_dispatch(vpath=…)` without self: TypeError
         ret = desc['ret']
@@ -494,7 +495,7 @@ class Runner:
         except NoAnswer:
             import gc
             gc.collect()
-            return {'status': 0, 'ran': [[p, a] for p, a, kw in self.built.journal], 'allow': None,
+            return {'status': 0, 'ran': [[p, a] for p, a, kw in self.built.journal], 'kwargs': [], 'allow': None,
                     'path_info': self.seen_path[0] if self.seen_path else None, 'body': b'', 'hang': True}
         allow = None
         for k, v in got.get('headers', []):
@@ -503,6 +504,7 @@ class Runner:
         return {
             'status': int(got['status'].split()[0]),
             'ran': [[p, a] for p, a, kw in self.built.journal],
+            'kwargs': [kw for p, a, kw in self.built.journal],
             'allow': allow,
             'path_info': self.seen_path[0] if self.seen_path else None,
             'body': body,
